@@ -12,6 +12,7 @@ theorem disk_changes_only_in_write_ctx (s : MSt) (op : MOp) (h : (mstep s op).1.
   cases op with
   | allowWrite => simp [mstep] at h
   | enter => simp only [mstep] at h; split at h <;> simp at h
+  | enterInterrupted => simp [mstep] at h
   | exit => simp [mstep] at h
   | read impl nobj => simp only [mstep] at h; repeat' split at h
                       all_goals simp at h
@@ -34,6 +35,7 @@ theorem inv_step (s : MSt) (op : MOp) (h : Inv s) : Inv (mstep s op).1 := by
   cases op with
   | allowWrite => simpa [mstep, Inv] using h
   | enter => simp only [mstep]; split <;> simp [Inv]
+  | enterInterrupted => simp [mstep, Inv]
   | exit => simp [mstep, Inv]
   | read impl nobj => simp only [mstep]; repeat' split
                       all_goals simp_all [Inv]
@@ -54,6 +56,7 @@ theorem writable_handle_from_enter (s : MSt) (op : MOp)
   cases op with
   | allowWrite => simp [mstep] at h1; exact absurd h1 h0
   | enter => simp only [mstep] at h1; split at h1 <;> simp at h1 <;> exact ⟨rfl, h1⟩
+  | enterInterrupted => simp [mstep] at h1
   | exit => simp [mstep] at h1
   | read impl nobj => simp only [mstep] at h1; repeat' split at h1
                       all_goals first | exact absurd h1 h0 | simp at h1
@@ -69,6 +72,7 @@ theorem mode_set_only_by_allow_write (s : MSt) (op : MOp) (h0 : s.mode = false) 
   cases op with
   | allowWrite => rfl
   | enter => simp only [mstep] at h1; split at h1 <;> simp [h0] at h1
+  | enterInterrupted => simp [mstep] at h1
   | exit => simp [mstep] at h1
   | read impl nobj => simp only [mstep] at h1; repeat' split at h1
                       all_goals simp [h0] at h1
@@ -92,26 +96,30 @@ theorem mode_allow_write_without_context (d : Bytes) (o : Op) (i : Bool) :
     (mstep (mrun (MSt.init d) [.allowWrite]) (.mutate o i)).2 = true ∧
     (mstep (mrun (MSt.init d) [.allowWrite]) (.mutate o i)).1.disk = d :=
   mutator_refused_elsewhere _ o i (by simp [mstep, mrun, MSt.init, MSt.writable])
+/-- what `__enter__` does: it never touches the bytes; when the file parses the handle is opened in the
+    pending mode and the object is inside a context; when it does not (or the entry is cut short) no
+    handle, no context and no pending permission are left -/
 theorem enter_effect (s : MSt) :
-    (mstep s .enter).1.handle = some s.mode ∧ (mstep s .enter).1.inCtx = true ∧
-    (mstep s .enter).1.mode = s.mode ∧ (mstep s .enter).1.disk = s.disk := by
+    (mstep s .enter).1.disk = s.disk ∧
+    (((mstep s .enter).1.handle = some s.mode ∧ (mstep s .enter).1.inCtx = true ∧ (mstep s .enter).1.mode = s.mode) ∨
+     ((mstep s .enter).1.handle = none ∧ (mstep s .enter).1.inCtx = false ∧ (mstep s .enter).1.mode = false)) := by
   simp only [mstep]; cases openFile s.disk <;> simp
+
+/-- a context entered without a pending allow_write is not writable -/
+theorem enter_plain_not_writable (s : MSt) (hm : s.mode = false) : (mstep s .enter).1.writable = false := by
+  rcases (enter_effect s).2 with ⟨h, _, _⟩ | ⟨h, _, _⟩ <;> simp [MSt.writable, h, hm]
 
 theorem mode_read_only_context (d : Bytes) (o : Op) (i : Bool) :
     (mstep (mrun (MSt.init d) [.enter]) (.mutate o i)).2 = true ∧
     (mstep (mrun (MSt.init d) [.enter]) (.mutate o i)).1.disk = d := by
-  have e := enter_effect (MSt.init d)
-  have hw : (mrun (MSt.init d) [.enter]).writable = false := by
-    simp only [mrun, MSt.writable, e.1]; simp [MSt.init]
+  have hw : (mrun (MSt.init d) [.enter]).writable = false := enter_plain_not_writable _ rfl
   have := mutator_refused_elsewhere _ o i hw
-  exact ⟨this.1, this.2.trans e.2.2.2⟩
+  exact ⟨this.1, this.2.trans (enter_effect (MSt.init d)).1⟩
 theorem mode_reentered_after_write_context (d : Bytes) (ops : List MOp) (o : Op) (i : Bool) :
     let s := mrun (mstep (mrun (MSt.init d) ([.allowWrite, .enter] ++ ops)) .exit).1 [.enter]
     (mstep s (.mutate o i)).2 = true ∧ (mstep s (.mutate o i)).1.disk = s.disk := by
   intro s
-  have hw : s.writable = false := by
-    have e := enter_effect (mstep (mrun (MSt.init d) ([.allowWrite, .enter] ++ ops)) .exit).1
-    simp only [s, mrun, MSt.writable, e.1]; simp [mstep]
+  have hw : s.writable = false := enter_plain_not_writable _ (by simp [mstep])
   exact mutator_refused_elsewhere s o i hw
 theorem mode_after_context_left_by_exception (s : MSt) (o : Op) (i : Bool) :
     (mstep (mstep s .exit).1 (.mutate o i)).2 = true ∧ (mstep (mstep s .exit).1 (.mutate o i)).1.disk = s.disk :=
@@ -137,10 +145,24 @@ theorem any_exit_ends_write_access (d : Bytes) (pre : List MOp) (o : Op) (i : Bo
     plain context it is read-only, whatever was open before -/
 theorem nested_plain_enter_is_read_only (s : MSt) (hm : s.mode = false) (o : Op) (i : Bool) :
     (mstep (mstep s .enter).1 (.mutate o i)).2 = true ∧ (mstep (mstep s .enter).1 (.mutate o i)).1.disk = s.disk := by
-  have e := enter_effect s
-  have hw : (mstep s .enter).1.writable = false := by simp [MSt.writable, e.1, hm]
-  have := mutator_refused_elsewhere _ o i hw
-  exact ⟨this.1, this.2.trans e.2.2.2⟩
+  have := mutator_refused_elsewhere _ o i (enter_plain_not_writable s hm)
+  exact ⟨this.1, this.2.trans (enter_effect s).1⟩
+
+/-- an `__enter__` that is cut short — by a refused file or by ANY exception raised inside it, a
+    KeyboardInterrupt included — leaves nothing behind: whatever permission was pending is gone, so the
+    next mutation raises and leaves the file alone, in any later plain context as well -/
+theorem interrupted_enter_leaves_nothing (s : MSt) (o : Op) (i : Bool) :
+    let s' := (mstep s .enterInterrupted).1
+    s'.inCtx = false ∧ s'.handle = none ∧ s'.mode = false ∧ s'.disk = s.disk ∧
+    (mstep s' (.mutate o i)).2 = true ∧ (mstep s' (.mutate o i)).1.disk = s.disk ∧
+    (mstep (mstep s' .enter).1 (.mutate o i)).2 = true ∧ (mstep (mstep s' .enter).1 (.mutate o i)).1.disk = s.disk := by
+  intro s'
+  have h0 : s'.mode = false := by simp [s', mstep]
+  have hd : s'.disk = s.disk := by simp [s', mstep]
+  have hw : s'.writable = false := by simp [s', mstep, MSt.writable]
+  have a := mutator_refused_elsewhere s' o i hw
+  have b := nested_plain_enter_is_read_only s' h0 o i
+  exact ⟨by simp [s', mstep], by simp [s', mstep], h0, hd, a.1, a.2.trans hd, b.1, b.2.trans hd⟩
 
 example (d : Bytes) (o : Op) : (mstep (mrun (MSt.init d) [.enter, .allowWrite, .enter, .exit]) (.mutate o false)).2 = true :=
   (any_exit_ends_write_access d [.enter, .allowWrite, .enter] o false).1
@@ -176,10 +198,10 @@ theorem implicit_context_consumes_allow_write (d : Bytes) (o : Op) :
     let s := mrun (MSt.init d) [.allowWrite, .read true false, .enter]
     (mstep s (.mutate o false)).2 = true := by
   intro s
-  have e := enter_effect (mrun (MSt.init d) [.allowWrite, .read true false])
   have hw : s.writable = false := by
-    simp only [s, mrun, MSt.writable] at e ⊢
-    rw [e.1]; simp [mstep, MSt.init]
+    have hm : (mrun (MSt.init d) [.allowWrite, .read true false]).mode = false := by
+      simp [mrun, mstep, MSt.init]
+    exact enter_plain_not_writable _ hm
   exact (mutator_refused_elsewhere s o false hw).1
 
 /-- a whole trace without mutators never changes the file -/
